@@ -54,6 +54,8 @@ class C11(Prop):
         raws = [o for o in case["ops"] if o["op"] == "snappath"]
         res = [r for r in results if r[0] == "snappath"]
         ol = [o for o in ops if o[0] == "snappath"]
+        if any(r[2].get("probe") == "0" for r in res):
+            return self.skip("the probe no longer calls snapshotPath the way the library's entry points do (calibration failed)")
         if not (len(raws) == len(res) == len(ol)):
             return self.skip("guard")
         for raw, (_, idx, o), (n, kv) in zip(raws, res, ol):
